@@ -30,6 +30,7 @@ struct Decoded {
     std::map<int, DSource> sources; std::map<int, DSignal> signals; std::vector<DUser> users;
     std::vector<std::string> errors;      // "class|detail"
     bool closed = false;                  // END chunk present and last
+    bool repaired_mode = false;           // file was closed by a repairing open: unlinked leftovers and missing track definitions are tolerated
     void err(const char *cls, const char *fmt, ...) __attribute__((format(printf, 3, 4)));
 };
 uint32_t crc32c(const uint8_t *p, size_t n);
